@@ -464,6 +464,7 @@ func c13(p *core.Program, r *core.Report) {
 
 	grahamPreconditionRule(p, r, "graham-scan-precondition")
 	betweenDegenerateRule(p, r, "between-degenerate-false")
+	reduceKeepsCandidatesRule(p, r, "reduce-keeps-candidates")
 	const r4 = "fresh-arrays-fully-written"
 	r.Rule(r4, "every non-empty make([]float64, n) in the hull code is completely overwritten from input coordinates before use: it is the target of a store indexed by an element counter bounded by its own length, or by base+k with a stride-stepped loop covering [0, len) - zero-initialised slots must never be read as coordinates (they would add the point (0,0) to the hull)", 2)
 	all := strideInfo(p)
@@ -651,6 +652,7 @@ func c13(p *core.Program, r *core.Report) {
 
 func c14(p *core.Program, r *core.Report) {
 	countSumCoupledRule(p, r, "count-sum-coupled")
+	rangeEndRule(p, r, "range-end-is-the-end", 2, "xy")
 	// whole files, so that renaming, merging or splitting the helpers keeps them covered
 	strideRuleN(p, r, "stride-discipline", []strideTarget{
 		{"xy", "file:area_centroid.go", "xy"},
@@ -797,8 +799,8 @@ func c20(p *core.Program, r *core.Report) {
 		}
 		r.Check(idOK, r1, "xy.SimplifyFlatCoords/identity-small", p.Pos(fn.Pos()), true, "size < 3 returns ret[i] = i", "the size < 3 path does not return the identity")
 	}
-	strideRule(p, r, "stride-discipline", []strideTarget{{"xy", "dpWorker", "all"}, {"xy", "distanceFromSegmentSquared", "xy"}, {"xy", "SimplifyFlatCoords", "all"}})
-	clampedProjectionRule(p, r, "segment-distance-clamped", [][2]string{{"xy", "distanceFromSegmentSquared"}})
+	strideRule(p, r, "stride-discipline", []strideTarget{{"xy", "dpWorker", "all"}, {"xy", rdpDistanceName(p), "xy"}, {"xy", "SimplifyFlatCoords", "all"}})
+	clampedProjectionRule(p, r, "segment-distance-clamped", [][2]string{{"xy", rdpDistanceName(p)}})
 	rdpScanRule(p, r, "candidate-scan-exhaustive")
 	rdpSingleDecisionRule(p, r, "single-decision-point")
 	r.Assume("the threshold bound on omitted points and idempotence depend on runtime numbers and are not decided beyond the clamp structure of the distance kernel")
@@ -949,4 +951,67 @@ func parityRule(p *core.Program, r *core.Report, rule string) {
 		}
 	}
 	r.Check(badInc == "" && n >= 1, rule, "xy/internal/raycrossing/count-increments", p.Pos(gl.Pos()), true, fmt.Sprintf("%d store(s), each count+1", n), badInc)
+}
+
+// reduceKeepsCandidatesRule (C13): the interior-point elimination never discards a point it has not tested.
+func reduceKeepsCandidatesRule(p *core.Program, r *core.Report, rule string) {
+	r.Rule(rule, "every value convexHullCalculator.reduce returns is its input array, or comes (also through the padding helper) from the set into which every input point outside the octagon was inserted (ToFlatArray of the tree set): a return built from the octagon's own vertices alone keeps at most eight points - if the octagon is degenerate (two opposite corners of the bounding box are input points and everything else lies in the band between the diagonals) real extreme points are dropped", 1)
+	fn := mustFn(p, r, rule, "xy", "(*convexHullCalculator).reduce")
+	if fn == nil {
+		return
+	}
+	var in *ssa.Parameter
+	for _, prm := range fn.Params {
+		if isFloatSlice(prm.Type()) {
+			in = prm
+		}
+	}
+	var origin func(v ssa.Value, depth int) string
+	origin = func(v ssa.Value, depth int) string {
+		if depth > 6 {
+			return "?"
+		}
+		switch x := v.(type) {
+		case *ssa.Parameter:
+			if x == in {
+				return "input"
+			}
+		case *ssa.Phi:
+			out := ""
+			for _, e := range x.Edges {
+				o := origin(e, depth+1)
+				if o != "input" && o != "set" {
+					return o
+				}
+				out = o
+			}
+			return out
+		case *ssa.Call:
+			if o := eng.CalleeObj(x); o != nil && o.Name() == "ToFlatArray" {
+				return "set"
+			}
+			if callee := x.Call.StaticCallee(); callee != nil && core.FnPkgPath(callee) == mod+"/xy" {
+				if callee.Name() == "computeOctRing" || strings.Contains(strings.ToLower(callee.Name()), "oct") {
+					return "the octagon (" + callee.Name() + ")"
+				}
+				// a helper that pads or copies one of its array arguments
+				for _, a := range x.Call.Args {
+					if isFloatSlice(a.Type()) {
+						return origin(a, depth+1)
+					}
+				}
+			}
+		}
+		return v.String()
+	}
+	n := 0
+	for _, b := range fn.Blocks {
+		ret, ok := b.Instrs[len(b.Instrs)-1].(*ssa.Return)
+		if !ok || len(ret.Results) == 0 {
+			continue
+		}
+		n++
+		o := origin(ret.Results[0], 0)
+		r.Check(o == "input" || o == "set", rule, fmt.Sprintf("%s/return#%d", short(fn), n), p.Pos(ret.Pos()), true, "returns "+o, "the candidates returned at "+p.Pos(ret.Pos())+" come from "+o+", not from the input or from the set that received every untested input point: points that were never compared with the octagon are discarded")
+	}
 }
